@@ -7,11 +7,13 @@ import (
 	"encoding/base32"
 	"encoding/base64"
 	"encoding/hex"
+	"errors"
 	"fmt"
 	"io"
 	"os"
 	"path/filepath"
 	"strings"
+	"syscall"
 	"testing"
 
 	"github.com/ipld/go-ipld-prime/linking"
@@ -66,6 +68,15 @@ func fsSharding(name string) func(string, *[]string) {
 		return sharding.Shard_r133
 	case "none":
 		return func(key string, shards *[]string) { *shards = append(*shards, key) }
+	case "deep":
+		// a caller's own function: three directory levels from the last three characters
+		return func(key string, shards *[]string) {
+			k := key
+			for len(k) < 3 {
+				k = "_" + k
+			}
+			*shards = append(*shards, k[len(k)-1:], k[len(k)-2:len(k)-1], k[len(k)-3:len(k)-2], key)
+		}
 	}
 	return sharding.Shard_r12
 }
@@ -348,7 +359,11 @@ func c17Check(c C17Case, rec *evid.Rec) error {
 					} else if c.Store != "fsstore" {
 						return fmt.Errorf("commit of overlapping stream %d failed: %v", j, cerr)
 					} else {
-						rec.Class("fs-put-refused")
+						var errno syscall.Errno
+						if !errors.As(cerr, &errno) || (errno != syscall.ENAMETOOLONG && errno != syscall.EINVAL) {
+							return fmt.Errorf("commit of overlapping stream %d (key of %d bytes) failed: %v", j, len(keys[ki]), cerr)
+						}
+						rec.Class("fs-put-refused:" + errno.Error())
 					}
 				}
 				return nil
@@ -423,7 +438,13 @@ func c17Check(c C17Case, rec *evid.Rec) error {
 				} else if c.Store != "fsstore" {
 					return fmt.Errorf("put failed: %v", perr)
 				} else {
-					rec.Class("fs-put-refused")
+					// the filesystem may refuse a key for what the key is (a name longer than it allows); nothing else
+					// excuses a failed put
+					var errno syscall.Errno
+					if !errors.As(perr, &errno) || (errno != syscall.ENAMETOOLONG && errno != syscall.EINVAL) {
+						return fmt.Errorf("put of key %s (%d bytes) failed: %v", val.Txt(k), len(k), perr)
+					}
+					rec.Class("fs-put-refused:" + errno.Error())
 				}
 				return nil
 			default:
@@ -494,12 +515,12 @@ func c17Check(c C17Case, rec *evid.Rec) error {
 
 var c17Part = evid.Part[C17Case]{
 	Prop: "C17", Name: "kvmap", Quick: 1200, Thorough: 100000,
-	Rule: "history of ≤40 put/put-stream/put-vec/re-put/two overlapping streams/has/get/get-stream/peek operations (methods and feature-detecting package functions) over a table of keys that each have one content, on memstore, cidlink.Memory, fsstore with defaults and with custom escaping (hex, base64url) × sharding (r12, r122, r133, none); keys = CID binaries and hostile byte strings (NUL, '/', '..', '../../sentinel.txt', '.temp', 300-byte, high bytes, shared shard suffixes, prefixes, and near neighbours of other keys: the base32 / hex / base64url form of another key, one more / one changed trailing byte, equal for the first 31..129 bytes and differing after); model map + full scan at the end; for fsstore the tree outside the base directory is compared after every operation and every path handed to the OS (verif hook) must lie under the base; non-trivial = ≥2 distinct keys, a read after a put, and for fsstore a hostile key; distinct by the whole history",
+	Rule: "history of ≤40 put/put-stream/put-vec/re-put/two overlapping streams/has/get/get-stream/peek operations (methods and feature-detecting package functions) over a table of keys that each have one content, on memstore, cidlink.Memory, fsstore with defaults and with custom escaping (hex, base64url) × sharding (r12, r122, r133, none, a three-level function of the caller's); keys = CID binaries and hostile byte strings (NUL, '/', '..', '../../sentinel.txt', '.temp', 300-byte, high bytes, shared shard suffixes, prefixes, and near neighbours of other keys: the base32 / hex / base64url form of another key, one more / one changed trailing byte, equal for the first 31..129 bytes and differing after); model map + full scan at the end; for fsstore the tree outside the base directory is compared after every operation and every path handed to the OS (verif hook) must lie under the base; non-trivial = ≥2 distinct keys, a read after a put, and for fsstore a hostile key; distinct by the whole history",
 	Gen: func(t *rapid.T) C17Case {
 		c := C17Case{Store: rapid.SampledFrom([]string{"memstore", "cidmemory", "fsstore", "fsstore", "fsstore"}).Draw(t, "store")}
 		if c.Store == "fsstore" && rapid.Bool().Draw(t, "custom") {
 			c.Escaping = rapid.SampledFrom([]string{"hex", "base64url"}).Draw(t, "escaping")
-			c.Sharding = rapid.SampledFrom([]string{"r12", "r122", "r133", "none"}).Draw(t, "sharding")
+			c.Sharding = rapid.SampledFrom([]string{"r12", "r122", "r133", "none", "deep"}).Draw(t, "sharding")
 		}
 		nk := rapid.IntRange(1, 8).Draw(t, "nkeys")
 		seen := map[string]bool{}
